@@ -395,6 +395,44 @@ func checkHostOpen(c *Check) {
 			okCursor = zero && nAdv == 1 && other == 0
 		}
 	}
+	// other form: the descriptors not yet taken are kept as a shrinking slice (`fd := pending[0]; pending = pending[1:]`)
+	var pendingSlot *ssa.Alloc
+	if u, ok := fdArg.(*ssa.UnOp); ok && u.Op == token.MUL && cursor == nil {
+		if ia, ok := u.X.(*ssa.IndexAddr); ok {
+			if idx, isC := constInt(ia.Index); isC && idx == 0 {
+				if ld, ok := ia.X.(*ssa.UnOp); ok && ld.Op == token.MUL {
+					if slot, ok := ld.X.(*ssa.Alloc); ok {
+						pendingSlot = slot
+					}
+				}
+			}
+		}
+	}
+	if pendingSlot != nil {
+		whole, nAdv, other := false, 0, 0
+		if refs := pendingSlot.Referrers(); refs != nil {
+			for _, r := range *refs {
+				st, ok := r.(*ssa.Store)
+				if !ok || st.Addr != ssa.Value(pendingSlot) {
+					continue
+				}
+				if strings.HasSuffix(describe(st.Val), ".Fds") && !inLoop(st.Block()) {
+					whole = true
+					continue
+				}
+				if sl, ok := st.Val.(*ssa.Slice); ok && sl.High == nil && sl.Low != nil {
+					if one, isC := constInt(sl.Low); isC && one == 1 && st.Block() == newFile.Block() {
+						if ld, ok := sl.X.(*ssa.UnOp); ok && ld.X == ssa.Value(pendingSlot) {
+							nAdv++
+							continue
+						}
+					}
+				}
+				other++
+			}
+		}
+		okCursor = whole && nAdv == 1 && other == 0
+	}
 	// the walk's success block is taken exactly for empty error strings
 	if okCursor {
 		g := cd.guardOf(newFile.Block())
@@ -454,6 +492,39 @@ func checkHostOpen(c *Check) {
 			}
 		}
 	}
+	if pendingSlot != nil {
+		// `len(pending) == 0` is tested and the non-empty side dominates the access
+		for _, b := range op.Blocks {
+			iff := blockIf(b)
+			if iff == nil {
+				continue
+			}
+			bo, ok := iff.Cond.(*ssa.BinOp)
+			if !ok {
+				continue
+			}
+			arg, isLen := isLenOf(bo.X)
+			zero, isC := constInt(bo.Y)
+			if !isLen || !isC || zero != 0 {
+				continue
+			}
+			if ld, ok := arg.(*ssa.UnOp); !ok || ld.X != ssa.Value(pendingSlot) {
+				continue
+			}
+			nonEmpty := -1
+			switch bo.Op {
+			case token.EQL, token.LEQ:
+				nonEmpty = 1
+			case token.NEQ, token.GTR:
+				nonEmpty = 0
+			}
+			if nonEmpty >= 0 {
+				if sb := b.Succs[nonEmpty]; sb == newFile.Block() || sb.Dominates(newFile.Block()) {
+					okBound = true
+				}
+			}
+		}
+	}
 	c.Cond(okBound, "2/host-open", key+":cursor-bound", p.Pos(newFile.Pos()), "the cursor is tested against the number of received descriptors before it is used",
 		"the received descriptors are indexed by a cursor that is not itself tested against their number (a different variable is tested): a batch in which a failure precedes a success is rejected as a mismatch, or a short reply panics the host")
 	okMark := mark != nil && dominatesInstr(mark, newFile) && stripConv(mark.Common().Args[0]) == fdArg
@@ -471,6 +542,12 @@ func checkHostOpen(c *Check) {
 						if callee != nil && inModule(callee) && len(ci.Common().Args) == 1 {
 							if sl, ok := ci.Common().Args[0].(*ssa.Slice); ok && sl.Low != nil && sl.High == nil && strings.HasSuffix(describe(sl.X), ".Fds") && strings.Contains(describe(sl.Low), "fdIndex") || ok && sl.Low != nil && sl.High == nil && strings.HasSuffix(describe(sl.X), ".Fds") {
 								closesTail = reachesCall(callee, 1, nameIs("syscall.Close"))
+							}
+							// the shrinking-slice form: the closure closes what is left of it
+							if ld, ok := ci.Common().Args[0].(*ssa.UnOp); ok && pendingSlot != nil {
+								if fv, ok := ld.X.(*ssa.FreeVar); ok && closureSiteOf(fv) == ssa.Value(pendingSlot) {
+									closesTail = reachesCall(callee, 1, nameIs("syscall.Close"))
+								}
 							}
 						}
 						if strings.HasSuffix(n, "os.File).Close") {
